@@ -52,6 +52,8 @@ class Sched:
         self.done = set()
         self.trace = []
         self.holder = None          # fake RESULTS_STORE_LOCK
+        self.timed = {}             # task -> its pending acquire has a timeout
+        self.expired = set()        # tasks whose timed acquire just timed out
         self.tls = threading.local()
 
     def me(self):
@@ -89,8 +91,25 @@ class Sched:
         return [t for t in range(self.n) if t not in self.done]
 
     def step(self, task):
-        """ one schedule entry; returns False for a stutter """
+        """ one schedule entry; returns False for a stutter.  An entry
+        100 + p means "time passes for task p": if p waits for the held lock
+        in an acquire that HAS a timeout, the acquire gives up (returns
+        False); in every other situation it is a stutter (as it is in the
+        model, where 100 + p names no task). """
         self.quiesce()
+        if task >= 100:
+            t = task - 100
+            if t < self.n and t not in self.done and \
+                    self.parked.get(t) == 'acq' and \
+                    self.holder is not None and self.timed.get(t):
+                self.expired.add(t)
+                with self.cv:
+                    del self.parked[t]
+                    self.turn = t
+                    self.cv.notify_all()
+                self.quiesce()
+                return True
+            return False
         if task >= self.n or task in self.done:
             return False
         if self.parked[task] == 'acq' and self.holder is not None:
@@ -107,13 +126,18 @@ class FakeLock:
     def __init__(self, sched):
         self.s = sched
 
-    def acquire(self, *_a, **_k):
+    def acquire(self, block=True, timeout=None):
+        me = self.s.me()
         while True:
+            self.s.timed[me] = (timeout is not None) or not block
             self.s.point('acq')
             if self.s.holder is None:
-                self.s.holder = self.s.me()
-                self.s.trace.append([self.s.me(), 0])
+                self.s.holder = me
+                self.s.trace.append([me, 0])
                 return True
+            if me in self.s.expired:          # waited longer than `timeout`
+                self.s.expired.discard(me)
+                return False
 
     def release(self):
         self.s.point('rel')
@@ -338,7 +362,9 @@ def judge(bsize, out):
     bad = []
     if out['deadlock']:
         bad.append(f"deadlock: unfinished tasks {out['deadlock']}")
-    allb = [(t, c) for t, bl in enumerate(out['blocks']) for c in bl]
+    # (a None entry = preallocate returned an empty block)
+    allb = [(t, c) for t, bl in enumerate(out['blocks']) for c in bl
+            if c is not None]
     for a in range(len(allb)):
         for b_ in range(a + 1, len(allb)):
             (t1, c1), (t2, c2) = allb[a], allb[b_]
@@ -348,7 +374,8 @@ def judge(bsize, out):
     data = dict(map(tuple, out['shared'][0]))
     for t, hs in enumerate(out['handed']):
         for idx, v in hs:
-            if not any(c <= idx < c + bsize for c in out['blocks'][t]):
+            if not any(c <= idx < c + bsize for c in out['blocks'][t]
+                       if c is not None):
                 bad.append(f"task {t} handed out index {idx} outside its "
                            f"blocks {out['blocks'][t]}")
             if out['status'][t] == 1 and data.get(idx) != v:
@@ -629,6 +656,10 @@ def run(chk):
         ln = rng.choice([0, 5, 20, 60, 150])
         sc = [rng.randrange(k + (1 if rng.random() < 0.1 else 0))
               for _ in range(ln)]
+        # time passing for a waiting task (only matters to an acquire that
+        # has a timeout)
+        sc = [100 + rng.randrange(k) if rng.random() < 0.12 else p
+              for p in sc]
         cases.append((b, progs, sc, 'random'))
     # --- adversarial patterns (the shape of the unlocked counter-schedule)
     for b, progs in pairs[:5]:
@@ -636,6 +667,13 @@ def run(chk):
             cases.append((b, progs, [0] * kk + [1] * 7 + [0] * 7,
                           'k-then-other'))
         cases.append((b, progs, [0, 1] * 30, 'round-robin'))
+        # one task holds the lock (in preallocate or in sync) while the other
+        # asks for a block and its wait "times out"
+        for kk in (1, 2, 4, 8, 12, 16):
+            cases.append((b, progs, [0] * kk + [1] * 3 + [101] + [1] * 9
+                          + [0] * 9, 'holder-then-timeout'))
+            cases.append((b, progs, [1] * kk + [0] * 3 + [100] + [0] * 9
+                          + [1] * 9, 'holder-then-timeout'))
     coq_cases, wants, outs, ran = [], [], [], []
     for b, progs, sc, kind in cases:
         try:
